@@ -32,6 +32,9 @@ func exploreAll(p *Prog, c *Closures, jobs []exploreJob, mask EffSet, r *Result,
 			defer func() { <-sem }()
 			x := NewExplorer(p, c, j.root, j.val, mk(j))
 			x.Mask = mask
+			if j.root.Parent() != nil {
+				x.InitFree, x.InitFreeIsCell = spawnFacts(p, c, j.root)
+			}
 			if cfg != nil {
 				cfg(x)
 			}
@@ -568,3 +571,76 @@ func checkC08(p *Prog, r *Result, tier string) {
 }
 
 func init() { register("C08", checkC08) }
+
+// spawnFacts: what is known about the captured variables of a goroutine closure at its spawn sites (meet over all
+// paths of the spawning function that reach the go statement).
+type spawnListener struct {
+	closure *ssa.Function
+	facts   map[int]Fact
+	cell    map[int]bool
+	seen    bool
+	mu      sync.Mutex
+}
+
+func (l *spawnListener) Event(x *Explorer, st *State, ev *Event) {
+	if ev.Kind != EvEffect || ev.Eff != EGo || ev.Callee != l.closure {
+		return
+	}
+	g, ok := ev.Instr.(*ssa.Go)
+	if !ok {
+		return
+	}
+	mc, ok := g.Call.Value.(*ssa.MakeClosure)
+	if !ok {
+		return
+	}
+	l.mu.Lock()
+	defer l.mu.Unlock()
+	for i, b := range mc.Bindings {
+		var f Fact
+		isCell := false
+		if k, ok := x.cellOf(st, b); ok {
+			f = st.facts[st.cells[k]]
+			isCell = true
+		} else {
+			f = st.factOf(b)
+		}
+		f.OkNil, f.OkTrue = EffSet{}, EffSet{}
+		if !l.seen {
+			l.facts[i], l.cell[i] = f, isCell
+			continue
+		}
+		old := l.facts[i]
+		if old.Nil != f.Nil {
+			old.Nil = triUnk
+		}
+		if old.Bool != f.Bool {
+			old.Bool = triUnk
+		}
+		old.Tags &= f.Tags
+		old.Zero = old.Zero && f.Zero
+		l.facts[i] = old
+		l.cell[i] = l.cell[i] && isCell
+	}
+	l.seen = true
+}
+func (l *spawnListener) Return(x *Explorer, st *State, ret *ssa.Return, res []Fact) {}
+func (l *spawnListener) End(x *Explorer, st *State, reason string)               {}
+
+var spawnCache sync.Map
+
+func spawnFacts(p *Prog, c *Closures, closure *ssa.Function) (map[int]Fact, map[int]bool) {
+	if v, ok := spawnCache.Load(closure); ok {
+		l := v.(*spawnListener)
+		return l.facts, l.cell
+	}
+	l := &spawnListener{closure: closure, facts: map[int]Fact{}, cell: map[int]bool{}}
+	x := NewExplorer(p, c, closure.Parent(), Valuation{}, l)
+	x.Mask = EffSet{}
+	x.Run()
+	if !l.seen {
+		l.facts, l.cell = map[int]Fact{}, map[int]bool{}
+	}
+	spawnCache.Store(closure, l)
+	return l.facts, l.cell
+}
